@@ -2,6 +2,7 @@ package main
 
 import (
 	"errors"
+	"github.com/vulcand/oxy/v2/roundrobin/stickycookie"
 	"math/rand/v2"
 	"net/http"
 	"net/http/httptest"
@@ -84,11 +85,11 @@ var c02Backoff = time.Second
 
 type c02Target struct {
 	failMeter atomic.Bool // the next meter the rebalancer asks for cannot be created
-	name   string
-	rr     *roundrobin.RoundRobin
-	rb     *roundrobin.Rebalancer
-	meters []*scriptedMeter
-	mmu    sync.Mutex
+	name      string
+	rr        *roundrobin.RoundRobin
+	rb        *roundrobin.Rebalancer
+	meters    []*scriptedMeter
+	mmu       sync.Mutex
 }
 
 // upsert hands the balancer the caller's own url.URL value and, as callers do, goes on using that value afterwards
@@ -99,7 +100,9 @@ func (t *c02Target) upsert(u *url.URL, opts ...roundrobin.ServerOption) error {
 		ui := *u.User
 		mine.User = &ui
 	}
-	defer func() { mine.Scheme, mine.Host, mine.Path, mine.RawQuery, mine.User = "https", "scribbled-after-the-call.test", "/scribbled", "x=1", nil }()
+	defer func() {
+		mine.Scheme, mine.Host, mine.Path, mine.RawQuery, mine.User = "https", "scribbled-after-the-call.test", "/scribbled", "x=1", nil
+	}()
 	if t.rb != nil {
 		return t.rb.UpsertServer(&mine, opts...)
 	}
@@ -704,6 +707,57 @@ func c02MutateCase(c *Ctx, i int, r *rand.Rand) {
 				c.Violation(key, sfmt("%s sticky=%v: after a downstream handler edited req.URL (mutation %d) the pool changed from %v to %v", kind, useSticky, mutation, orig, cur),
 					map[string]any{"target": kind, "mutation": mutation, "script": script})
 				return
+			}
+		}
+		if useSticky {
+			// a client that stuck to a server keeps presenting its affinity cookie after that server has been removed: "a
+			// removed server is never selected again" (plain and hashed cookie values)
+			st2 := roundrobin.NewStickySession("aff2")
+			codec := "raw"
+			if r.IntN(2) == 0 {
+				st2.SetCookieValue(&stickycookie.HashValue{Salt: "pepper"})
+				codec = "hash"
+			}
+			last := ""
+			t2 := newC02Target(kind, http.HandlerFunc(func(w http.ResponseWriter, req *http.Request) { last = urlKey(req.URL) }), "never", r, st2)
+			for _, u := range urls {
+				if err := t2.upsert(u, roundrobin.Weight(1)); err != nil {
+					c.Violation("upsert/error", err.Error(), nil)
+					return
+				}
+			}
+			rec := httptest.NewRecorder()
+			t2.serve(rec, httptest.NewRequest("GET", "http://client.test/", nil))
+			var ck *http.Cookie
+			for _, k := range rec.Result().Cookies() {
+				if k.Name == "aff2" {
+					ck = k
+				}
+			}
+			stuck := last
+			if ck != nil && stuck != "" {
+				send := func() string {
+					last = ""
+					req := httptest.NewRequest("GET", "http://client.test/", nil)
+					req.AddCookie(&http.Cookie{Name: "aff2", Value: ck.Value})
+					t2.serve(httptest.NewRecorder(), req)
+					return last
+				}
+				if send() == stuck { // (pinning itself is C11's concern: only pinned sessions are decided here)
+					for _, u := range urls {
+						if urlKey(u) == stuck {
+							if err := t2.remove(u); err != nil {
+								c.Violation("remove/present-failed", "RemoveServer of a present server failed: "+err.Error(), nil)
+								return
+							}
+						}
+					}
+					c.Count("removed_servers_probed_with_their_affinity_cookie", 1)
+					if got := send(); got == stuck {
+						c.Violation("remove/sticky-still-routed", sfmt("%s, %s affinity cookie: a session was pinned to %s, the server was removed, and the next request carrying the cookie was still routed to it (members now %v)", kind, codec, stuck, keysOf(t2.servers())), map[string]any{"target": kind, "codec": codec})
+						return
+					}
+				}
 			}
 		}
 		c.Eval()
